@@ -61,3 +61,56 @@ func VH_C05_RotateContinuity() {
 	}
 	verifrt.Reach("end")
 }
+
+// VH_C05_WaitBound: a seated-in player with chips is dealt into at least one of
+// any `hands` consecutive hands (successful rotations), whatever happens on the
+// other seats in between (busts, re-buys, sit-outs, departures, one arrival per gap).
+func VH_C05_WaitBound() {
+	M := verifrt.Cfg("M")
+	hands := verifrt.Cfg("hands")
+	sm := vhArbitrarySM(M, Rule_Default)
+	verifrt.Assume(sm.IsInit && vhShapeInv(sm))
+	x := verifrt.IntRange("x", 0, M-1)
+	verifrt.Assume(sm.SeatData[x] != nil && sm.SeatData[x].IsIn && sm.SeatData[x].HasChips)
+	dealt := false
+	anyHU := false
+	for h := 0; h < hands; h++ {
+		err := sm.RotatePositions()
+		// only hands that are actually dealt count
+		verifrt.Assume(err == nil)
+		if vhPostActive(sm, x) {
+			dealt = true
+		}
+		if sm.IsHU() {
+			anyHU = true
+		}
+		if h == hands-1 {
+			break
+		}
+		// arbitrary events on the other seats before the next hand
+		for s := 0; s < M; s++ {
+			if s == x || sm.SeatData[s] == nil {
+				continue
+			}
+			if verifrt.BoolI("gap.leave"+vhIDs[h], s) {
+				sm.SeatData[s] = nil
+			} else {
+				sm.SeatData[s].IsIn = verifrt.BoolI("gap.in"+vhIDs[h], s)
+				sm.SeatData[s].HasChips = verifrt.BoolI("gap.chips"+vhIDs[h], s)
+			}
+		}
+		if verifrt.BoolI("gap.arrival", h) {
+			seat := verifrt.IntRangeI("gap.seat", h, 0, M-1)
+			if sm.AssignSeats(map[string]int{"n" + vhIDs[h]: seat}) == nil && verifrt.BoolI("gap.join", h) {
+				sm.JoinPlayers([]string{"n" + vhIDs[h]})
+			}
+		}
+	}
+	// known finding C05_STARVE: while the hands among the *other* players stay heads-up the
+	// waiting flag is re-evaluated against the arc from the other player's seat to the new big
+	// blind, which can keep covering the waiting player for as many hands as the big blind
+	// needs to travel round the table
+	verifrt.KF("C05_STARVE", anyHU)
+	verifrt.Assert(dealt, "a seated-in player with chips never misses this many hands in a row")
+	verifrt.Reach("end")
+}
